@@ -79,12 +79,13 @@ func findCmd(args []string) error {
 	}
 	st.Exhaustive = fmt.Sprintf("every chain of depth 0..%d whose levels independently hold one of %d contents (nothing, a file sorting before, a file sorting after, a regular spokfile, spokfile between other files, a directory named spokfile next to a file) x every start level x stop in {every level, an existing unrelated directory, a missing unrelated directory}", maxDepth, len(contents))
 	treeNo := 0
-	for depth := 0; depth <= maxDepth; depth++ {
+	hangs := 0
+	for depth := 0; depth <= maxDepth && hangs < 3; depth++ {
 		total := 1
 		for i := 0; i <= depth; i++ {
 			total *= len(contents)
 		}
-		for code := 0; code < total; code++ {
+		for code := 0; code < total && hangs < 3; code++ {
 			treeNo++
 			if treeNo%*nshards != *shard {
 				continue
@@ -130,8 +131,11 @@ func findCmd(args []string) error {
 			dirEnc = append(dirEnc, "20:")
 			stops := append([][]int{}, chain...)
 			stops = append(stops, []int{20}, []int{20, 21})
-			for sl := 0; sl <= depth; sl++ {
+			for sl := 0; sl <= depth && hangs < 3; sl++ {
 				for si, stop := range stops {
+					if hangs >= 3 {
+						break // enough evidence; every further hang would burn another core
+					}
 					start := chain[sl]
 					startP, stopP := segPath(base, start), segPath(base, stop)
 					resCh := make(chan string, 1)
@@ -154,6 +158,7 @@ func findCmd(args []string) error {
 					select {
 					case res = <-resCh:
 					case <-time.After(3 * time.Second):
+						hangs++ // the goroutine cannot be stopped and keeps a core busy
 					}
 					// map the found directory back to segment numbers
 					if strings.HasPrefix(res, "F ") {
